@@ -15,9 +15,10 @@ EXTENDS Integers, Sequences, FiniteSets, TLC, Json, IOUtils, SequencesExt
 
 Hosts == {"h1", "h2"}
 QueryHosts == Hosts \cup {"H1"}      \* a host that equals a configured one only up to case is another host
-URIs == {"/a/x", "/a/b/x", "/ab", "/c?q=/a", "/a%2Fb/x", "/"}
+URIs == {"/a/x", "/a/b/x", "/ab", "/c?q=/a", "/a%2Fb/x", "/", "/a-d/x"}
 HostSets == {<<>>, <<"h1">>, <<"h2">>, <<"h1", "h2">>}
-PrefixSets == {<<>>, <<"/a">>, <<"/a/b">>, <<"/">>, <<"/b">>, <<"/b", "/a/">>}
+(* <<"/a", "/a-d">>: one prefix of the list is a prefix of the other, and "/a-d" sorts between "/a" and "/a/x" *)
+PrefixSets == {<<>>, <<"/a">>, <<"/a/b">>, <<"/">>, <<"/b">>, <<"/b", "/a/">>, <<"/a", "/a-d">>}
 Shapes == {[hosts |-> h, prefixes |-> p] : h \in HostSets, p \in PrefixSets}
 NameLists == {<<"n1">>, <<"n2">>, <<"n1", "n2">>, <<"n2", "n1">>, <<"nx">>, <<>>, <<"n3", "n1">>}
 
@@ -25,7 +26,8 @@ RangeS(s) == {s[i] : i \in DOMAIN s}
 
 (* "p is a prefix of the raw request URI u" for the strings of this universe (TLC does not take strings apart;
    the runner re-checks this table against strings.HasPrefix and refuses to run if they disagree) *)
-PrefixPairs == {<<"/a", "/a/x">>, <<"/a", "/a/b/x">>, <<"/a", "/ab">>, <<"/a", "/a%2Fb/x">>, <<"/a/b", "/a/b/x">>, <<"/", "/a/x">>, <<"/", "/a/b/x">>, <<"/", "/ab">>, <<"/", "/c?q=/a">>, <<"/", "/a%2Fb/x">>, <<"/", "/">>, <<"/a/", "/a/x">>, <<"/a/", "/a/b/x">>}
+PrefixPairs == {<<"/a", "/a/x">>, <<"/a", "/a/b/x">>, <<"/a", "/ab">>, <<"/a", "/a%2Fb/x">>, <<"/a/b", "/a/b/x">>, <<"/", "/a/x">>, <<"/", "/a/b/x">>, <<"/", "/ab">>, <<"/", "/c?q=/a">>, <<"/", "/a%2Fb/x">>, <<"/", "/">>, <<"/a/", "/a/x">>, <<"/a/", "/a/b/x">>,
+                <<"/a", "/a-d/x">>, <<"/", "/a-d/x">>, <<"/a-d", "/a-d/x">>}
 HasPrefix(p, u) == <<p, u>> \in PrefixPairs
 
 Match(loc, host, uri) ==
